@@ -26,6 +26,10 @@ Python ports of IDL astronomy routines). Never read or write `/repo` or `/verif`
 {prop}
 ```
 
+## Already recorded -- do NOT repeat these (find five genuinely different ones: other functions on the property's code path, other kinds of edit)
+
+{known}
+
 ## What to produce
 
 Produce **five different, independent changes** to the package source (not to its tests) that a maintainer could plausibly
@@ -91,10 +95,19 @@ def main():
             print(pid, 'worktree failed:', r.stderr)
             continue
         shutil.copy(os.path.join(REPO, 'pydl/version.py'), os.path.join(wt, 'pydl/version.py'))
+        import glob
+        import re
+        known = []
+        for d in sorted(glob.glob(os.path.join(VERIF, 'refactors', pid + '-*'))):
+            n = os.path.join(d, 'notes.md')
+            if os.path.exists(n):
+                t = re.sub(r'^#+\s*', '', open(n).readline().strip())
+                t = re.sub(r'^C\d\d\s*/\s*(refactor\s*)?\d+\s*[-:—]*\s*', '', t)
+                known.append('* ' + t)
         od = os.path.join(out, pid)
         os.makedirs(od, exist_ok=True)
         with open(os.path.join(od, 'TASK.md'), 'w') as fh:
-            fh.write(TEMPLATE.format(wt=wt, out=od, pid=pid, prop=json.dumps(p, indent=1)))
+            fh.write(TEMPLATE.format(wt=wt, out=od, pid=pid, prop=json.dumps(p, indent=1), known='\n'.join(known) or '* (none)'))
         print(pid, 'task written')
     sh('git -C %s worktree prune' % REPO)
 
